@@ -147,72 +147,3 @@ fn c22_parse_query_resets_ground() { parse_query_resets("go"); }
 #[kani::unwind(12)]
 fn c22_parse_query_resets_var() { parse_query_resets("p($X)."); }
 } // mod pq
-
-// ---- C02: the unsafe walk of SolutionNode::set_no_backtracking() ---------------------------------------------------
-// BOUNDED: parent chains of up to 3 real nodes; which nodes have a head node is symbolic.  What is checked is the
-// specification `walked` that the Verus unit `solver` assumes (spec/solver.rs): the flag is set on the node, on every
-// node up the parent_node links and on the head node of each of these - and on no other node (a head of a head, a node
-// that merely shares the knowledge base); no other field of any node changes.
-use std::rc::Rc;
-use std::cell::RefCell;
-
-fn fresh_node<'a>(g: &Rc<Goal>, kb: &'a KnowledgeBase) -> Rc<RefCell<SolutionNode<'a>>> {
-    Rc::new(RefCell::new(SolutionNode::new(Rc::clone(g), kb)))
-}
-fn untouched(n: &Rc<RefCell<SolutionNode>>) -> bool {
-    let b = n.borrow();
-    b.more_solutions && b.rule_index == 0 && b.number_facts_rules == 0 && b.child.is_none() && b.tail_sn.is_none() && b.operator_tail.is_none()
-}
-
-fn cut_walk_case(len: u8, top_has_head: bool, mid_has_head: bool) {
-    let kb = KnowledgeBase::new();
-    let g = Rc::new(Goal::Nil);
-    let top = fresh_node(&g, &kb);
-    let mid = fresh_node(&g, &kb);
-    let leaf = fresh_node(&g, &kb);
-    let head_of_top = fresh_node(&g, &kb);
-    let head_of_mid = fresh_node(&g, &kb);
-    let head_of_head = fresh_node(&g, &kb);
-    let stranger = fresh_node(&g, &kb);
-    // chain length: leaf alone, leaf -> mid, or leaf -> mid -> top
-    if len >= 1 { leaf.borrow_mut().parent_node = Some(Rc::clone(&mid)); }
-    if len >= 2 { mid.borrow_mut().parent_node = Some(Rc::clone(&top)); }
-    if top_has_head { top.borrow_mut().head_sn = Some(Rc::clone(&head_of_top)); }
-    if mid_has_head { mid.borrow_mut().head_sn = Some(Rc::clone(&head_of_mid)); }
-    // a head node has a head of its own and hangs below its operator node
-    head_of_mid.borrow_mut().head_sn = Some(Rc::clone(&head_of_head));
-    head_of_mid.borrow_mut().parent_node = Some(Rc::clone(&mid));
-    // the stranger points INTO the chain but is not on it
-    stranger.borrow_mut().parent_node = Some(Rc::clone(&mid));
-    stranger.borrow_mut().head_sn = Some(Rc::clone(&leaf));
-
-    leaf.borrow_mut().set_no_backtracking();
-
-    assert!(leaf.borrow().no_backtracking, "the node of the cut is flagged");
-    assert!(mid.borrow().no_backtracking == (len >= 1), "the parent is flagged exactly when it is on the chain");
-    assert!(top.borrow().no_backtracking == (len >= 2), "the grandparent is flagged exactly when it is on the chain");
-    assert!(head_of_mid.borrow().no_backtracking == (len >= 1 && mid_has_head), "the head node of a chain node is flagged");
-    assert!(head_of_top.borrow().no_backtracking == (len >= 2 && top_has_head), "the head node of a chain node is flagged");
-    assert!(!head_of_head.borrow().no_backtracking, "the head of a head is not on the walk");
-    assert!(!stranger.borrow().no_backtracking, "a node that points into the chain is not on the walk");
-    assert!(untouched(&leaf) && untouched(&mid) && untouched(&top) && untouched(&head_of_mid) && untouched(&head_of_top) && untouched(&stranger),
-            "the walk writes no other field");
-    kani::cover!(true, "the end of the case is reachable");
-    std::mem::forget((top, mid, leaf, head_of_top, head_of_mid, head_of_head, stranger));
-}
-
-// one harness per shape (a symbolic shape did not finish in 15 min / 7.6 GB)
-#[kani::proof]
-#[kani::stub(std::hash::RandomState::new, stub_random_state)]
-#[kani::unwind(5)]
-fn c02_cut_walk() { cut_walk_case(2, true, true); }
-
-#[kani::proof]
-#[kani::stub(std::hash::RandomState::new, stub_random_state)]
-#[kani::unwind(5)]
-fn c02_cut_walk_short() { cut_walk_case(1, false, true); }
-
-#[kani::proof]
-#[kani::stub(std::hash::RandomState::new, stub_random_state)]
-#[kani::unwind(5)]
-fn c02_cut_walk_alone() { cut_walk_case(0, true, false); }
